@@ -664,3 +664,71 @@ func checkWazerotestMemoryWidths(c *core.Ctx) {
 		c.Undecided("R14.10", "fixed-width accessors of wazerotest.Memory", 0, fmt.Sprintf("only %d found", n))
 	}
 }
+
+// checkSharedEntriesRefCounted (R09.8): the engines keep ONE compiled-module entry per module ID, shared by every
+// CompiledModule of the same binary and settings (and by every runtime sharing a CompilationCache). Deleting it is therefore
+// conditional on a count of its users, and a compilation that hits the entry counts itself.
+func checkSharedEntriesRefCounted(c *core.Ctx) {
+	for _, e := range []struct{ name, rel, mapField string }{{"interpreter", "internal/engine/interpreter", "compiledFunctions"}, {"compiler", wzv, "compiledModules"}} {
+		p := c.Pkg(e.rel)
+		if p == nil {
+			continue
+		}
+		info := p.TypesInfo
+		found := false
+		core.AllFuncDecls(p, func(fd *ast.FuncDecl) {
+			if core.RecvName(fd) != "engine" {
+				return
+			}
+			ast.Inspect(fd.Body, func(x ast.Node) bool {
+				call, ok := x.(*ast.CallExpr)
+				if !ok || !core.IsBuiltin(info, call, "delete") || len(call.Args) != 2 {
+					return true
+				}
+				se, ok := call.Args[0].(*ast.SelectorExpr)
+				if !ok || se.Sel.Name != e.mapField {
+					return true
+				}
+				found = true
+				// before the delete, a path leaves the function under a comparison of a count with a constant
+				guarded := false
+				ast.Inspect(fd.Body, func(y ast.Node) bool {
+					is, ok := y.(*ast.IfStmt)
+					if !ok || is.Pos() > call.Pos() {
+						return true
+					}
+					cmp := false
+					ast.Inspect(is.Cond, func(z ast.Node) bool {
+						if be, ok := z.(*ast.BinaryExpr); ok && (be.Op == token.GTR || be.Op == token.GEQ || be.Op == token.LSS || be.Op == token.LEQ || be.Op == token.NEQ || be.Op == token.EQL) {
+							if _, isK := core.ConstVal(info, be.Y); isK {
+								if t := info.Types[be.X].Type; t != nil && basicKind(t) == types.Int {
+									cmp = true
+								}
+							}
+						}
+						return true
+					})
+					returns := false
+					ast.Inspect(is.Body, func(z ast.Node) bool {
+						if _, ok := z.(*ast.ReturnStmt); ok {
+							returns = true
+						}
+						return true
+					})
+					// either "if count > 1 { …; return }" before the delete, or the delete inside "if count == 0 {"
+					if cmp && (returns || (is.Body.Pos() <= call.Pos() && call.End() <= is.Body.End())) {
+						guarded = true
+					}
+					return true
+				})
+				c.Check(guarded, "R09.8", e.name+" "+fd.Name.Name+": the shared compiled-module entry is deleted only with its last user", call.Pos(),
+					"the delete is conditional on a user count",
+					"`"+core.ExprStr(call)+"` is unconditional: the entry is keyed by the module ID and shared by every CompiledModule of the same binary (and every runtime sharing the CompilationCache), so closing one CompiledModule, an instance made by Runtime.Instantiate, or a failed instantiation removes the code under all the others ('source module must be compiled before instantiation')")
+				return true
+			})
+		})
+		if !found {
+			c.Undecided("R09.8", e.name+": deletion of compiled-module entries", 0, "no delete on engine."+e.mapField+" found")
+		}
+	}
+}
